@@ -66,11 +66,11 @@ class EphemerisImporter:
         )
         current_ephemerides = self._importer_db.getData(query)
 
-        # Ensure we have at least as many ephems as register import callbacks
-        if len(current_ephemerides) < len(self._registrants):
-            retrieved_ids = {ephem.agent_id for ephem in current_ephemerides}
-            registerd_ids = set(self._registrants.keys())
-            missing_ids = registerd_ids - retrieved_ids
+        # Ensure we have ephemeris data for every registered import callback
+        retrieved_ids = {ephem.agent_id for ephem in current_ephemerides}
+        registerd_ids = set(self._registrants.keys())
+        missing_ids = registerd_ids - retrieved_ids
+        if missing_ids:
             msg = f"Missing ephemeris data for agents {missing_ids} at time {datetime_epoch.isoformat(timespec='microseconds')}"
             self._logger.error(msg)
             raise MissingEphemerisError(msg)
